@@ -125,6 +125,7 @@ const (
 	textRandom = iota
 	textOverlap
 	textBytes
+	textNear // valid text with some runes re-encoded in a way a careless decoder accepts
 )
 
 func overlapLen(a, b string) int { // longest k: suffix of a of k bytes == prefix of b
@@ -278,7 +279,7 @@ type mnode struct {
 	kids map[rune]*mnode
 }
 
-func queueSim(dpats []string) (growths, wrappedGrowths, maxQueue, nodes int) {
+func queueSim(dpats []string) (growths, wrappedGrowths, maxQueue, nodes, maxFanout int) {
 	root := &mnode{kids: map[rune]*mnode{}}
 	for _, p := range dpats {
 		n := root
@@ -293,6 +294,9 @@ func queueSim(dpats []string) (growths, wrappedGrowths, maxQueue, nodes int) {
 		}
 	}
 	sorted := func(n *mnode) []*mnode {
+		if len(n.kids) > maxFanout {
+			maxFanout = len(n.kids)
+		}
 		rs := make([]rune, 0, len(n.kids))
 		for r := range n.kids {
 			rs = append(rs, r)
